@@ -344,7 +344,7 @@ class Gen:
         return '\n\n'.join(parts)
 
 
-HEADER = 'import fpy2 as fp\n\nG1 = 1.25\nG2 = 3\nNZ = -0.0\n\n'
+HEADER = 'import fpy2 as fp\n\nG1 = 1.25\nG2 = 3\nNZ = -0.0\nPZ = 0.0\nONE = 1\nYES = True\nt = 100.0\nK = 100.0\n\n'
 
 
 def load_module(source: str, workdir: str, modname: str):
